@@ -7,34 +7,46 @@ ENTRY = dict(
         corr_files=["Corr/C14Corr.v"],
         theorems=["c14_splice", "c14_assign", "c14_validate_characterised", "c14_no_placeholder", "c14_others_in_order",
                   "c14_measure_bits", "c14_refuse_length", "c14_refuse_non_placeholder", "c14_refuse_differing_bases",
-                  "c14_refuse_count", "c14_refuse_maps_length", "c14_refuse_map_out_of_range", "c14_omitted",
+                  "c14_refuse_count", "c14_refuse_repeated_index", "c14_refuse_2q_in_pair", "c14_refuse_maps_length",
+                  "c14_refuse_map_none", "c14_refuse_map_out_of_range", "c14_decided", "c14_never_crashes", "c14_omitted",
                   "c14_omitted_never_crashes", "c14_setter", "c14_setter_invariant", "c14_facts"],
         allowed_axioms=[],
         facts=["value_error_sites", "c14_validate_messages", "c14_offset_updates", "c14_sorted_2q", "c14_min_register",
-               "c14_decompose_value_errors"],
+               "c14_decompose_value_errors", "c14_unset_check_first"],
         harness="c14",
         level_text="Unbounded theorems (all circuit lengths, all placements and mixes of placeholders, all groupings, all in-range map "
                    "choices, all basis tables including empty sequences) about the executable model of decompose_qpd_instructions that "
                    "keeps the Python running offsets (sorted 2q indices, overwrite-first/insert-rest, delete-on-empty with offset -1): "
                    "the result equals the declarative splice `measures_numbered nc (flat_map splice (assign c ids maps))`; corollaries: no "
                    "placeholder or marker left, other instructions kept in order, markers numbered consecutively into a final register of "
-                   "size max(1, #markers), one refusal theorem per documented class, omitted map choice = decomposition or refusal, never "
-                   "a crash. Closed under the global context. The model is run inside Coq on every input the implementation ran on "
-                   "(900 generated calls per quick run, inplace False and True) and compared instruction by instruction.",
+                   "size max(1, #markers), one refusal theorem per class of inconsistent grouping / out-of-range, None or miscounted map "
+                   "choice, omitted map choice = decomposition or refusal, and totality (c14_decided): every request whose indices lie "
+                   "inside the circuit is either the splice or a refusal, never a crash. Closed under the global context. The model is run "
+                   "inside Coq on every input the implementation ran on (about 1100 generated calls per quick run, inplace False and True) "
+                   "and compared instruction by instruction.",
         level_note=STD_NOTE + "No axioms. The clause 'the input circuit is untouched unless inplace' is not a theorem (the model is "
-                   "functional); it is observed on every generated call and enters the per-case verdict.",
+                   "functional); it is observed on every generated call and enters the per-case verdict, as do 'a refused in-place call leaves its "
+                   "argument unchanged' and 'the new register is the last one'. Observations outside the property's quantifier (not "
+                   "generated, not judged): negative instruction indices are accepted by Python indexing and misplace the second half of a "
+                   "2q placeholder (qc.h(1); TwoQubitQPDGate(cx) on [0,1]; ids [[-1]], map 3 puts half 1 before h(1)); a second call on an "
+                   "already decomposed circuit raises CircuitError (register name qpd_measurements exists).",
         assumptions=[
             "Model/Decompose.v is a hand-written model of decompose_qpd_instructions, _validate_qpd_instructions, "
             "_decompose_qpd_instructions, _decompose_qpd_measurements, the basis_id setter range check and both _define methods; tied to "
             "the source by the C14 correspondence and by regenerated facts (validation message order, ValueError site counts, the "
             "sorted() call, the offset updates +1/+1/-1, the register size max(1, .))",
-            "the model follows the REPAIRED behaviour for an unset basis_id (F5: ValueError in the second loop); on the unrepaired tree "
-            "the fact c14_decompose_value_errors = 1 and the correspondence both fail",
+            "the model follows the REPAIRED behaviour: unset basis_id refused before any rewriting (F5, c8b859e); None / out-of-range "
+            "map ids refused before any assignment (417f876, 32107ac); and the validation also refuses an instruction index mentioned "
+            "twice and a TwoQubitQPDGate inside a two-element group (property: 'inconsistent groupings are refused'). Until the last "
+            "repair is committed the facts (7 ValueErrors in _validate_qpd_instructions) and the correspondence fail on /repo",
+            "known finding F17 (one gate object appended at several positions, inplace=True: every position gets the map id assigned "
+            "last): such cases are compared with a model of the current aliasing behaviour in a separate quiet group only while "
+            "KNOWN_FINDINGS.json lists C14/F17 as known; otherwise they are compared with the property-demanding model and alarm",
             "the model has no Instruction._definition cache: `definition` always reflects the current basis_id (what the property demands); "
             "the stream 'definition_read_before' exercises gates whose definition was read before the call",
             "QPDBasis objects are interned by QPDBasis.__eq__ (equal handle <=> ==); ordinary gates by (name, arity, exact params, class)",
-            "instruction arity is a Qiskit invariant (2q placeholder has two qubits, 1q placeholder one); negative indices and None "
-            "entries inside map_ids are outside the model and are not generated",
+            "instruction arity is a Qiskit invariant (2q placeholder has two qubits, 1q placeholder one); negative instruction indices "
+            "are outside the model and the quantifier and are not generated; map ids are Python ints or None (option Z)",
             "QuantumCircuit.copy()/add_register semantics (operations copied, new register's bits are the last clbits, register is "
             "cregs[-1] named qpd_measurements) are observed as monitored oracle contracts, not proved",
         ],
